@@ -38,27 +38,16 @@ Notation bit := (bit fb).
 Definition Psequential (f : nat) (s : asg) : Prop :=
   forall t l, t < T fb -> l < nlevels fb f -> bit s t f l = (l =? t mod nlevels fb f).
 
-(** * [factor_preamble_size] is 0 in F1 *)
-Lemma preambles_zero f cs : forall i, Forall (fun p => p = 0) (preambles_of fb f i cs).
+(** * the guard: a factor without a complex window whose crossings (if any) have no preamble *)
+Lemma seq_guard f : constraint_f1 fb (FSequential f) = true ->
+  isact fb f = true /\ is_complex fb f = false /\ factor_preamble_size fb f = COk 0.
 Proof.
-  induction cs as [|c cs IH]; intros i; cbn [preambles_of]; [constructor|].
-  apply Forall_app. split; [|apply IH].
-  destruct (existsb (Nat.eqb f) c); [|constructor].
-  constructor; [apply (f1_preamble fb HF1)|constructor].
+  cbn [constraint_f1]. rewrite !andb_true_iff. intros [[A B] C]. apply negb_true_iff in B.
+  split; [exact A|]. split; [exact B|]. destruct (factor_preamble_size fb f) as [[|n]|e]; try discriminate. reflexivity.
 Qed.
 
-Lemma fps_zero f : factor_preamble_size fb f = COk 0.
-Proof.
-  unfold factor_preamble_size. pose proof (preambles_zero f (fl_crossings fb) 0) as H.
-  destruct (preambles_of fb f 0 (fl_crossings fb)) as [|p rest]; [reflexivity|].
-  inversion H as [|? ? Hp Hrest]; subst.
-  replace (forallb (Nat.eqb 0) rest) with true; [reflexivity|].
-  symmetry. apply forallb_forall. intros x Hx.
-  rewrite (proj1 (Forall_forall _ _) Hrest x Hx). reflexivity.
-Qed.
-
-Lemma pre_of_zero f : pre_of fb f = 0.
-Proof. unfold pre_of. now rewrite fps_zero. Qed.
+Lemma pre_of_zero f : factor_preamble_size fb f = COk 0 -> pre_of fb f = 0.
+Proof. intros H. unfold pre_of. now rewrite H. Qed.
 
 (** * The literals of [Sequential.apply] *)
 Definition seq_lit (f i l : nat) : fm :=
@@ -95,7 +84,7 @@ Lemma eval_seq_lit s f t l :
   eval s (seq_lit f t l) = eqb (bit s t f l) (l =? t mod nlevels fb f).
 Proof.
   unfold seq_lit, F1Kinds.bit.
-  pose proof (gvar_pos fb HF1 HT t f l) as Hp.
+  pose proof (gvar_pos fb t f l) as Hp.
   destruct (l =? t mod nlevels fb f); cbn [eval fv]; rewrite lit_true_pos by lia; unfold zn;
     destruct (s (Z.of_nat (gvar fb t f l))); reflexivity.
 Qed.
@@ -109,13 +98,13 @@ Proof.
     rewrite eval_seq_lit, (H t l Ht Hl). apply eqb_reflx.
 Qed.
 
-Lemma apply_sequential_eq f fresh : isact fb f = true ->
+Lemma apply_sequential_eq f fresh : isact fb f = true -> factor_preamble_size fb f = COk 0 ->
   apply_constraint fb (FSequential f) fresh =
   let '(cls, fresh') := cnf_fn (seq_lits f 0) fresh in
   COk {| ct_fresh := fresh'; ct_clauses := cls; ct_requests := [] |}.
 Proof.
-  intros Hf. cbn [apply_constraint]. unfold apply_sequential.
-  rewrite fps_zero, (f1_sustain fb (in_f1_facts fb HF1) f). cbn [cbind].
+  intros Hf Hfps. cbn [apply_constraint]. unfold apply_sequential.
+  rewrite Hfps, (f1_sustain fb (in_f1_facts fb HF1) f). cbn [cbind].
   pose proof (f1_nlevels_pos fb HF1 f (f1_act_lt fb HF1 f Hf)) as Hn.
   replace (nlevels fb f =? 0) with false by (symmetry; apply Nat.eqb_neq; lia).
   replace (1 =? 0) with false by reflexivity. cbn [orb]. rewrite andb_false_r.
@@ -128,15 +117,15 @@ Lemma step_sequential f :
   forall fresh ct, (GZ < fresh)%Z -> apply_constraint fb (FSequential f) fresh = COk ct ->
   exists ext, DefinesA (fresh - 1) (ct_fresh ct - 1) (ct_clauses ct) (ct_requests ct) ext (Psequential f).
 Proof.
-  intros Hc fresh ct Hfr E. cbn [constraint_f1] in Hc.
-  rewrite (apply_sequential_eq f fresh Hc) in E.
+  intros Hc0 fresh ct Hfr E. destruct (seq_guard f Hc0) as (Hc & Hcx & Hfps).
+  rewrite (apply_sequential_eq f fresh Hc Hfps) in E.
   destruct (cnf_fn (seq_lits f 0) fresh) as [cls fresh'] eqn:Ecnf. inversion E. subst ct. clear E.
   cbn [ct_fresh ct_clauses ct_requests].
   assert (HGZ : (0 <= GZ)%Z) by (unfold F1Kinds.GZ, zn; lia).
   destruct (definesA_tseitin (seq_lits f 0) fresh cls fresh') as (ext & D); [lia| |exact Ecnf|].
   - intros z Hz. cbn [leaves] in Hz. apply in_flat_map in Hz. destruct Hz as (x & Hx & Hz).
     apply in_seq_lits in Hx. destruct Hx as (t & l & Ht & Hl & ->).
-    pose proof (gvar_pos fb HF1 HT t f l) as Hp. pose proof (gvar_le fb HF1 HT t f l Ht Hc Hl) as Hle.
+    pose proof (gvar_pos fb t f l) as Hp. pose proof (gvar_le fb HF1 HT t f l Ht Hc Hl (lappl_simple fb HF1 f t Hc Hcx)) as Hle.
     unfold zn in Hle. unfold seq_lit in Hz.
     destruct (l =? t mod nlevels fb f); cbn [leaves fv] in Hz; destruct Hz as [<-|[]]; lia.
   - exists ext. apply (definesA_conseq _ _ _ _ _ _ _ D). intros s. apply eval_seq_lits.
@@ -145,8 +134,8 @@ Qed.
 Lemma sequential_total f fresh :
   constraint_f1 fb (FSequential f) = true -> exists ct, apply_constraint fb (FSequential f) fresh = COk ct.
 Proof.
-  intros Hc. cbn [constraint_f1] in Hc.
-  rewrite (apply_sequential_eq f fresh Hc).
+  intros Hc0. destruct (seq_guard f Hc0) as (Hc & Hcx & Hfps).
+  rewrite (apply_sequential_eq f fresh Hc Hfps).
   destruct (cnf_fn (seq_lits f 0) fresh) as [cls fresh']. eauto.
 Qed.
 
@@ -162,27 +151,28 @@ Theorem sequential_sem s q f :
   onehot fb s q -> constraint_f1 fb (FSequential f) = true ->
   (Psequential f s <-> forallb (constraint_ok (code_sem fb) q) (code_constraint fb (FSequential f)) = true).
 Proof.
-  intros (Hq & Hr & Hcell & Hbit & _) Hc. cbn [constraint_f1] in Hc.
+  intros (Hq & Hr & Hcell & Hbit & _) Hc0. destruct (seq_guard f Hc0) as (Hc & Hcx & Hfps).
+  assert (Hap : forall t, lappl fb f t = true) by (intros t; now apply (lappl_simple fb HF1)).
   pose proof (f1_act_lt fb HF1 f Hc) as Hcn. pose proof (f1_nlevels_pos fb HF1 f Hcn) as Hn.
   cbn [code_constraint forallb]. rewrite andb_true_r.
   unfold constraint_ok, mk_c. cbn [k_kind k_factor k_level k_windows].
-  rewrite code_nlevels, pre_of_zero, (f1_sustain fb (in_f1_facts fb HF1) f).
+  rewrite code_nlevels, (pre_of_zero f Hfps), (f1_sustain fb (in_f1_facts fb HF1) f).
   change (s_trials (code_sem fb)) with (T fb).
   rewrite forallb_forall. unfold Psequential. split.
   - intros H t Ht. apply in_seq in Ht.
     replace (t <? 0) with false by (symmetry; apply Nat.ltb_ge; lia).
     rewrite Nat.sub_0_r, Nat.div_1_r.
-    destruct (Hcell t f ltac:(lia) Hc) as (l0 & Hl0 & E0). unfold get_cell in E0. rewrite E0.
+    destruct (Hcell t f ltac:(lia) Hc (Hap t)) as (l0 & Hl0 & E0). unfold get_cell in E0. rewrite E0.
     cbn [cell_eqb].
     pose proof (Nat.mod_upper_bound t (nlevels fb f) ltac:(lia)) as Hm.
     pose proof (H t (t mod nlevels fb f) ltac:(lia) Hm) as Hb.
-    rewrite (Hbit t f _ ltac:(lia) Hc Hm) in Hb. unfold get_cell in Hb. rewrite E0, is_level_some, Nat.eqb_refl in Hb.
+    rewrite (Hbit t f _ ltac:(lia) Hc (Hap t) Hm) in Hb. unfold get_cell in Hb. rewrite E0, is_level_some, Nat.eqb_refl in Hb.
     exact Hb.
   - intros H t l Ht Hl. specialize (H t ltac:(apply in_seq; lia)). cbv beta in H.
     replace (t <? 0) with false in H by (symmetry; apply Nat.ltb_ge; lia).
     rewrite Nat.sub_0_r, Nat.div_1_r in H.
-    rewrite (Hbit t f l Ht Hc Hl). unfold get_cell.
-    destruct (Hcell t f Ht Hc) as (l0 & Hl0 & E0). unfold get_cell in E0. rewrite E0 in H |- *.
+    rewrite (Hbit t f l Ht Hc (Hap t) Hl). unfold get_cell.
+    destruct (Hcell t f Ht Hc (Hap t)) as (l0 & Hl0 & E0). unfold get_cell in E0. rewrite E0 in H |- *.
     cbn [cell_eqb] in H. apply Nat.eqb_eq in H. rewrite is_level_some, H. apply Nat.eqb_sym.
 Qed.
 
